@@ -55,12 +55,14 @@ type kfClass struct {
 }
 
 type Ctx struct {
-	ex     *Explorer
-	prog   *ssa.Program
-	solver *Solver
-	pc     []*Term
-	prefix []int
-	decis  []int
+	modelOf   *Term      // formula of the last sat violation check
+	modelVals []*big.Int // its model, per ndTrace entry
+	ex        *Explorer
+	prog      *ssa.Program
+	solver    *Solver
+	pc        []*Term
+	prefix    []int
+	decis     []int
 	// new prefixes discovered by this path
 	pending [][]int
 
@@ -172,8 +174,18 @@ func (c *Ctx) violable(bad *Term) (*Term, bool) {
 	}
 	c.checkTaint(bad)
 	r := "sat"
+	c.modelOf, c.modelVals = nil, nil
 	if !bad.IsTrue() {
 		r = c.solver.Check(bad)
+		if r == "sat" {
+			// keep this model: asking again for the same formula can time out
+			// (hard integer problems are not solved equally fast twice)
+			ts := make([]*Term, len(c.ndTrace))
+			for i, n := range c.ndTrace {
+				ts[i] = n.t
+			}
+			c.modelOf, c.modelVals = bad, c.solver.Values(ts)
+		}
 		c.solver.Done()
 	}
 	switch r {
@@ -367,6 +379,13 @@ func (c *Ctx) recordViolation(kind, label string, bad *Term, known string) {
 	v.Stack = strings.Join(c.stackNames(8), " <- ")
 	// dedupe cheaply within the explorer before paying for a model
 	if !c.ex.wantModel(v) {
+		c.viols = append(c.viols, v)
+		return
+	}
+	if c.modelOf == bad && len(c.modelVals) == len(c.ndTrace) {
+		for i, n := range c.ndTrace {
+			v.Vector = append(v.Vector, NdVal{Name: n.Name, Kind: n.Kind, Value: ndValueString(n, c.modelVals[i])})
+		}
 		c.viols = append(c.viols, v)
 		return
 	}
